@@ -23,6 +23,21 @@ CHECKS = {
         "/ 20 s time budgets as a stand-in for termination, nesting <= 40.",
         "DESIGN.md section 5 C01",
     ),
+    "C07": (
+        "property-based testing (Hypothesis) of order laws and agreement "
+        "with a model order on the ckl.values API and through interpreted "
+        "programs; sorted checked as ordered + permutation + stable",
+        "Generated same-kind triples with related values (variants, prefixes, "
+        "neighbours) are compared with a model order written from the "
+        "statement, at API level (all order laws) and through the interpreter "
+        "(< <= > >= compare min max sorted, set / map-key enumeration); all "
+        "string pairs of length <= 2 over 5 critical characters "
+        "exhaustively. Sampling, not proof.",
+        "Trusted: the model order (numeric via Fractions, code points, "
+        "FALSE<TRUE, datetime, element-wise lists); cross-kind order is out "
+        "of scope.",
+        "DESIGN.md section 5 C07",
+    ),
     "C15": (
         "exhaustive enumeration of small sequences x index arguments against "
         "a sequence reference model, plus Hypothesis for long sequences and "
